@@ -25,6 +25,9 @@ def tasks(tier, seed):
                 if (n, K) == (2, 2):
                     t.append(("contracts.gemini_invariance", "task", (cls, ovo, n, K, "empty2", seed), to, tag + ",empty2]"))
                     t.append(("contracts.gemini_invariance", "task", (cls, ovo, n, K, "empty-perm", seed), to, tag + ",empty-perm]"))
+    # B: the same contracts replayed on the real code at a ladder of larger shapes (stand-in for the missing induction over sizes)
+    t.append(("contracts.size_ladder", "task", ("invariance", tier, seed, (("whats", ("perm-rows", "perm-cols", "indep")),)), 1500, "size ladder: equivariance, independence"))
+    t.append(("contracts.size_ladder", "task", ("invariance", tier, seed, (("whats", ("onehot", "empty", "empty2", "empty-perm")),)), 1500, "size ladder: hard partitions, empty clusters"))
     return t
 
 
